@@ -62,8 +62,11 @@ class Prop(PropBase):
                          center_freq=case["cf"] * u.Hz, freq_align=case["al"], **kw)
 
     def _ref(self, case, z):
-        return {"none": None, "top": z.max_freq, "bottom": z.min_freq, "above": z.max_freq + 2 * z.bandwidth,
+        r = {"none": None, "top": z.max_freq, "bottom": z.min_freq, "above": z.max_freq + 2 * z.bandwidth,
                 "below": z.min_freq * 0.8, "inside": z.center_freq + 0.25 * z.chan_bw}[case["ref"]]
+        if r is not None and case.get("seed", len(str(case))) % 5 == 2:
+            r = r.to(self.u.GHz if case.get("seed", 0) % 2 else self.u.Hz)      # the same reference frequency in another unit
+        return r
 
     def run_code(self, case):
         pb, np, u = self.pb, self.np, self.u
